@@ -2,6 +2,7 @@
 recording policies and a recording manager proxy over the scripted simulation vs
 coq/Ctl/Trainer.v."""
 from . import envshim  # noqa: F401
+import copy
 import itertools
 import os
 import random
@@ -180,6 +181,7 @@ def gen(tier, rng):
         if quick:
             scripts = scripts[::3] + rng.sample(scripts, 200)
         for sc in scripts:
+            sc = copy.deepcopy(sc)       # the sample may contain the same script object twice
             if kind == 2 and rng.random() < 0.5:
                 n = sc[1]
                 for row in sc[3]:
